@@ -534,4 +534,219 @@ Proof.
            apply wf_lo_mono with (lo := minE); auto. lia.
 Qed.
 
+(* ---------------- recursive delete ---------------- *)
+
+Definition split_at {A} (i : nat) (l : list A) : list A * option A * list A :=
+  (firstn i l, nth_error l i, skipn (S i) l).
+
+(* remove and return the largest entry of the subtree *)
+Fixpoint del_max (fuel : nat) (t : node) : option (entry * node) :=
+  match fuel with
+  | O => None
+  | S f =>
+    let '(Node es cs) := t in
+    match cs with
+    | [] => match rev es with
+            | [] => None
+            | e :: _ => Some (e, Node (removelast es) [])
+            end
+    | _ =>
+      let i := length cs - 1 in
+      match nth_error cs i with
+      | None => None
+      | Some c =>
+        match del_max f c with
+        | None => None
+        | Some (e, c') =>
+          match fix_child es (set_nth i c' cs) i with
+          | Some (es', cs') => Some (e, Node es' cs')
+          | None => None
+          end
+        end
+      end
+    end
+  end.
+
+Fixpoint del (fuel : nat) (k : K) (t : node) : option (node * bool) :=
+  match fuel with
+  | O => None
+  | S f =>
+    let '(Node es cs) := t in
+    let '(i, found) := search k es in
+    match cs with
+    | [] => if found then Some (Node (remove_nth i es) [], true) else Some (t, false)
+    | _ =>
+      match nth_error cs i with
+      | None => None
+      | Some c =>
+        if found then
+          match del_max f c with
+          | None => None
+          | Some (e, c') =>
+            match fix_child (set_nth i e es) (set_nth i c' cs) i with
+            | Some (es', cs') => Some (Node es' cs', true)
+            | None => None
+            end
+          end
+        else
+          match del f k c with
+          | None => None
+          | Some (c', false) => Some (t, false)
+          | Some (c', true) =>
+            match fix_child es (set_nth i c' cs) i with
+            | Some (es', cs') => Some (Node es' cs', true)
+            | None => None
+            end
+          end
+      end
+    end
+  end.
+
+Lemma skipn_S_tail {A} : forall i (l : list A) a t, skipn i l = a :: t -> skipn (S i) l = t.
+Proof.
+  induction i as [|i IH]; intros l a t H.
+  - rewrite skipn_O in H. subst. reflexivity.
+  - destruct l as [|b l]; [rewrite skipn_nil in H; discriminate|]. rewrite skipn_cons in *. eauto.
+Qed.
+
+Lemma set_nth_decomp {A} (l : list A) i x y :
+  nth_error l i = Some y -> set_nth i x l = firstn i l ++ x :: skipn (S i) l /\ length (firstn i l) = i.
+Proof.
+  intros H. pose proof (nth_error_Some_lt _ _ _ H) as Hlt. unfold set_nth.
+  rewrite firstn_length. split; [|lia]. f_equal.
+  destruct (skipn i l) as [|a t] eqn:E.
+  - apply (f_equal (@length A)) in E. rewrite skipn_length in E. simpl in E. lia.
+  - now rewrite (skipn_S_tail _ _ _ _ E).
+Qed.
+
+Lemma length_removelast_es (es : list entry) : es <> [] -> S (length (removelast es)) = length es.
+Proof. intros H. rewrite length_removelast. destruct es; [congruence|simpl; lia]. Qed.
+
+Lemma fix_child_in_parent d lo es cs i c' es' cs' c :
+  1 <= lo -> lo <= length es -> length es <= maxE ->
+  length cs = S (length es) -> Forall (wf minE d) cs ->
+  nth_error cs i = Some c -> wf (minE - 1) d c' ->
+  fix_child es (set_nth i c' cs) i = Some (es', cs') ->
+  wf (lo - 1) (S d) (Node es' cs').
+Proof.
+  intros Hlo1 Hlo Hhi Hc HF Hn Hc' Hfix.
+  destruct (set_nth_decomp cs i c' c Hn) as [Hd Hl]. rewrite Hd in Hfix.
+  replace (fix_child es (firstn i cs ++ c' :: skipn (S i) cs) i)
+    with (fix_child es (firstn i cs ++ c' :: skipn (S i) cs) (length (firstn i cs))) in Hfix
+    by (rewrite Hl; reflexivity).
+  apply fix_child_wf with (d := d) in Hfix; auto.
+  - destruct Hfix as (H1 & H2 & H3 & H4). apply wf_unfold. cbn [kids_ok]. repeat split; auto; lia.
+  - rewrite <- Hd. rewrite length_set_nth. exact Hc.
+  - lia.
+  - now apply Forall_firstn.
+  - now apply Forall_skipn.
+Qed.
+
+Lemma del_max_wf d : forall fuel lo t e t',
+  1 <= lo -> wf lo d t -> del_max fuel t = Some (e, t') -> wf (lo - 1) d t'.
+Proof.
+  induction d as [|d IH]; intros fuel lo [es cs] e t' Hlo1 Hwf Hdm;
+    (destruct fuel as [|f]; [discriminate|]); cbn [del_max] in Hdm;
+    apply wf_unfold in Hwf; destruct Hwf as (Hlo & Hhi & Hk); cbn [kids_ok] in Hk.
+  - subst cs. destruct (rev es) as [|e0 r] eqn:Er; [discriminate|]. inversion Hdm; subst.
+    apply wf_unfold. cbn [kids_ok]. rewrite length_removelast. repeat split; auto; lia.
+  - destruct Hk as [Hc HF]. destruct cs as [|c0 cs']; [simpl in Hc; discriminate|].
+    remember (c0 :: cs') as cs eqn:Hcs.
+    destruct (nth_error cs (length cs - 1)) as [c|] eqn:En; [|discriminate].
+    destruct (del_max f c) as [[e1 c1]|] eqn:Ed; [|discriminate].
+    destruct (fix_child es (set_nth (length cs - 1) c1 cs) (length cs - 1)) as [[es' cs'']|] eqn:Ef; [|discriminate].
+    inversion Hdm; subst e1 t'.
+    pose proof (nth_error_Forall _ _ _ _ HF En) as Hcwf.
+    assert (Hc1 : wf (minE - 1) d c1) by (eapply IH; eauto using minE_pos).
+    eapply fix_child_in_parent; eauto.
+Qed.
+
+Lemma length_remove_nth_le {A} i (l : list A) : i < length l -> length (remove_nth i l) = length l - 1.
+Proof. intros H. pose proof (length_remove_nth i l H). lia. Qed.
+
+Lemma del_wf d : forall fuel lo k t t' b,
+  1 <= lo -> wf lo d t -> del fuel k t = Some (t', b) -> wf (lo - 1) d t'.
+Proof.
+  induction d as [|d IH]; intros fuel lo k [es cs] t' b Hlo1 Hwf Hdel;
+    (destruct fuel as [|f]; [discriminate|]); cbn [del] in Hdel;
+    assert (Hwf0 := Hwf); apply wf_unfold in Hwf; destruct Hwf as (Hlo & Hhi & Hk); cbn [kids_ok] in Hk;
+    destruct (search k es) as [i found] eqn:Es.
+  - subst cs. destruct found.
+    + inversion Hdel; subst. apply search_found_lt in Es.
+      apply wf_unfold. cbn [kids_ok]. rewrite length_remove_nth_le by auto. repeat split; auto; lia.
+    + inversion Hdel; subst. eapply wf_lo_mono; eauto. lia.
+  - destruct Hk as [Hc HF]. destruct cs as [|c0 cs']; [simpl in Hc; discriminate|].
+    remember (c0 :: cs') as cs eqn:Hcs.
+    destruct (nth_error cs i) as [c|] eqn:En; [|discriminate].
+    pose proof (nth_error_Forall _ _ _ _ HF En) as Hcwf.
+    destruct found.
+    + destruct (del_max f c) as [[e1 c1]|] eqn:Ed; [|discriminate].
+      destruct (fix_child (set_nth i e1 es) (set_nth i c1 cs) i) as [[es' cs'']|] eqn:Ef; [|discriminate].
+      inversion Hdel; subst.
+      assert (Hc1 : wf (minE - 1) d c1) by (eapply del_max_wf; eauto using minE_pos).
+      eapply fix_child_in_parent with (es := set_nth i e1 es); eauto; rewrite ?length_set_nth; auto.
+    + destruct (del f k c) as [[c1 [|]]|] eqn:Ed; [| |discriminate].
+      * destruct (fix_child es (set_nth i c1 cs) i) as [[es' cs'']|] eqn:Ef; [|discriminate].
+        inversion Hdel; subst.
+        assert (Hc1 : wf (minE - 1) d c1) by (eapply IH; eauto using minE_pos).
+        eapply fix_child_in_parent; eauto.
+      * inversion Hdel; subst. eapply wf_lo_mono; eauto. lia.
+Qed.
+
+(* whole-tree operations: root may be absent; depth travels with it *)
+Definition tree := option (nat * node)%type.      (* depth, root *)
+
+Definition BTInv (t : tree) : Prop :=
+  match t with None => True | Some (d, r) => wf 1 d r end.
+
+Definition put (k : K) (v : V) (t : tree) : option tree :=
+  match t with
+  | None => Some (Some (0, Node [(k, v)] []))
+  | Some (d, r) =>
+    match ins (S d) k v r with
+    | Some (RN r', _) => Some (Some (d, r'))
+    | Some (RS l e r', _) => Some (Some (S d, Node [e] [l; r']))
+    | None => None
+    end
+  end.
+
+Definition remove (k : K) (t : tree) : option tree :=
+  match t with
+  | None => Some None
+  | Some (d, r) =>
+    match del (S d) k r with
+    | Some (Node [] [], _) => Some None
+    | Some (Node [] (c :: _), _) => Some (Some (d - 1, c))
+    | Some (r', _) => Some (Some (d, r'))
+    | None => None
+    end
+  end.
+
+Theorem put_inv k v t t' : BTInv t -> put k v t = Some t' -> BTInv t'.
+Proof.
+  unfold put, BTInv. destruct t as [[d r]|].
+  - intros Hwf. destruct (ins (S d) k v r) as [[[r'|l e r'] b]|] eqn:Ei; intros H; inversion H; subst.
+    + apply (ins_wf d _ _ _ _ _ _ _ Hwf Ei).
+    + destruct (ins_wf d _ _ _ _ _ _ _ Hwf Ei) as [Hl Hr].
+      apply wf_unfold. cbn [kids_ok]. simpl length. pose proof arith_facts. repeat split; auto; lia.
+  - intros _ H. inversion H; subst. apply wf_unfold. cbn [kids_ok]. simpl. pose proof arith_facts. repeat split; auto; lia.
+Qed.
+
+Theorem remove_inv k t t' : BTInv t -> remove k t = Some t' -> BTInv t'.
+Proof.
+  unfold remove, BTInv. destruct t as [[d r]|]; [|intros _ H; inversion H; subst; exact I].
+  intros Hwf. destruct (del (S d) k r) as [[r' b]|] eqn:Ed; [|discriminate].
+  pose proof (del_wf d _ _ _ _ _ _ (le_n 1) Hwf Ed) as Hr'. simpl in Hr'.
+  destruct r' as [es cs]. destruct es as [|e es].
+  - destruct cs as [|c cs]; intros H; inversion H; subst; [exact I|].
+    (* root lost its last entry: its single child becomes the root *)
+    apply wf_unfold in Hr'. destruct Hr' as (_ & _ & Hk). destruct d; cbn [kids_ok] in Hk; [discriminate|].
+    destruct Hk as [Hc HF]. inversion HF; subst. simpl. rewrite Nat.sub_0_r.
+    destruct c as [ces ccs]. eapply wf_lo_mono; eauto. apply wf_unfold in H2. pose proof minE_pos. lia.
+  - intros H; inversion H; subst. apply wf_unfold in Hr'. destruct Hr' as (H1 & H2 & H3).
+    apply wf_unfold. simpl length in *. repeat split; auto; lia.
+Qed.
+
 End BT.
+Print Assumptions put_inv.
+Print Assumptions remove_inv.
